@@ -55,6 +55,29 @@ struct Config {
     with_stack: bool,
     /// the limit is set again (raised, lowered, set for the first time) after this many executed instructions: (j, new limit)
     relimit: Option<(u64, u64)>,
+    /// after this many executed instructions the host maps a second executable area far from the code (0 = before the run)
+    exec_area: Option<u64>,
+    /// after this many executed instructions the host overwrites an instruction that has already run with one-byte NOPs
+    patch: Option<u64>,
+}
+
+const EXTRA_EXEC_AT: u64 = 0x5550_0000;
+
+fn add_exec_area(ax: &mut Axecutor) -> bool {
+    call(|| {
+        ax.mem_init_area(EXTRA_EXEC_AT, vec![0x90u8; 0x23])?;
+        ax.mem_prot(EXTRA_EXEC_AT, 5)
+    })
+    .is_ok()
+}
+
+fn apply_patch(ax: &mut Axecutor, at: u64, len: usize) -> bool {
+    call(|| {
+        ax.mem_prot(proggen::CODE_AT, 7)?;
+        ax.mem_write_bytes(at, &vec![0x90u8; len])?;
+        ax.mem_prot(proggen::CODE_AT, 5)
+    })
+    .is_ok()
 }
 
 impl C11 {
@@ -80,7 +103,7 @@ impl C11 {
         let opts = ProgOpts { fault_tail: true, unbalanced_ret: true, ..Default::default() };
         let prog = proggen::gen_prog(rng, &opts);
         // reference run without limit / hooks to learn the length
-        let base_cfg = Config { limit: None, stop: None, with_stack: rng.below(6) != 0, relimit: None };
+        let base_cfg = Config { limit: None, stop: None, with_stack: rng.below(6) != 0, relimit: None, exec_area: None, patch: None };
         let Some(mut probe) = self.build(&prog, &base_cfg) else {
             col.count("build_failed", 1);
             return;
@@ -112,7 +135,7 @@ impl C11 {
             }
         }
         for _ in 0..4 {
-            cfgs.push(Config { limit: if rng.below(3) == 0 { Some(rng.below(lim_max)) } else { None }, stop: Some((rng.below(2) == 0, rng.below(len + 1))), with_stack: base_cfg.with_stack, relimit: None });
+            cfgs.push(Config { limit: if rng.below(3) == 0 { Some(rng.below(lim_max)) } else { None }, stop: Some((rng.below(2) == 0, rng.below(len + 1))), with_stack: base_cfg.with_stack, relimit: None, exec_area: None, patch: None });
         }
         // the limit set or changed in the middle of the run (resume with a larger budget, cut a run short, first limit late)
         for _ in 0..4 {
@@ -129,7 +152,19 @@ impl C11 {
                 3 => rng.below(j + 1),
                 _ => rng.below(lim_max + 2),
             };
-            cfgs.push(Config { limit: first, stop: None, with_stack: base_cfg.with_stack, relimit: Some((j, n2)) });
+            cfgs.push(Config { limit: first, stop: None, with_stack: base_cfg.with_stack, relimit: Some((j, n2)), exec_area: None, patch: None });
+        }
+        // the host maps a second executable area (before or during the run): "the end of the initial code" stays where it was;
+        // the host rewrites an instruction that has already been executed (a loop body, a function called twice): the
+        // next visit executes what is in memory then
+        for _ in 0..2 {
+            cfgs.push(Config { exec_area: Some(if rng.below(2) == 0 { 0 } else { rng.below(len + 1) }), limit: if rng.below(4) == 0 { Some(rng.below(lim_max)) } else { None }, ..base_cfg.clone() });
+        }
+        if len >= 4 {
+            for _ in 0..3 {
+                // (always under a limit: the rewritten program may be one that no longer terminates)
+                cfgs.push(Config { patch: Some(1 + rng.below(len - 1)), limit: Some(len + 20 + rng.below(60)), ..base_cfg.clone() });
+            }
         }
         // the driver itself calls stop() between two steps (no hook involved): the run is over from then on
         if len >= 2 {
@@ -184,11 +219,52 @@ impl C11 {
         STOPPED.with(|c| c.set(false));
         col.publish("execute", &prog.shape);
         // twin A runs to completion with execute(); with a mid-run limit change it steps j times, sets the limit, then execute()
+        // where the patch goes is decided by a scout run of the same machine: the most often executed plain instruction
+        // (no control transfer, at least two bytes long) among the first j steps
+        let mut patch: Option<(u64, u64, usize)> = None;
+        if let Some(j) = cfg.patch {
+            let mut scout = self.build(prog, cfg)?;
+            STOP_AT.with(|c| c.set(stop_at));
+            STOPPED.with(|c| c.set(false));
+            let mut seen: std::collections::BTreeMap<u64, u32> = Default::default();
+            for _ in 0..j {
+                let rip = snapshot(&scout).rip;
+                if !matches!(call(|| block_on(scout.step())), Call::Ok(true)) {
+                    break;
+                }
+                *seen.entry(rip).or_insert(0) += 1;
+            }
+            let mut best: Option<(u32, u64, usize)> = None;
+            for (rip, n) in &seen {
+                if let Some(i) = decode_at(&prog.code, proggen::CODE_AT, *rip) {
+                    if matches!(i.flow_control(), FlowControl::Next) && i.len() >= 2 && !matches!(i.mnemonic(), Mnemonic::Push | Mnemonic::Pop | Mnemonic::Syscall) && best.map(|b| *n > b.0).unwrap_or(true) {
+                        best = Some((*n, *rip, i.len()));
+                    }
+                }
+            }
+            if let Some((n, at, len)) = best {
+                patch = Some((j, at, len));
+                col.distinct_key(&format!("patch|{}|{}", n.min(3), len));
+            }
+        }
+        let mut cur_code = prog.code.clone();
+        let mut events: Vec<u64> = Vec::new();
+        if let Some((j, _)) = cfg.relimit {
+            events.push(j);
+        }
+        if let Some(j) = cfg.exec_area {
+            events.push(j);
+        }
+        if let Some((j, _, _)) = patch {
+            events.push(j);
+        }
+        events.sort();
+        events.dedup();
         let mut limit_a = cfg.limit;
         let mut a_early: Option<Call<()>> = None;
-        if let Some((j, n2)) = cfg.relimit {
-            let mut done = 0;
-            while done < j {
+        let mut done = 0;
+        for j in events {
+            while done < j && a_early.is_none() {
                 match call(|| block_on(a.step())) {
                     Call::Ok(true) => done += 1,
                     Call::Ok(false) => {
@@ -205,9 +281,22 @@ impl C11 {
                     }
                 }
             }
-            if a_early.is_none() {
-                a.set_max_instructions(n2);
-                limit_a = Some(n2);
+            if a_early.is_some() {
+                break;
+            }
+            if let Some((jr, n2)) = cfg.relimit {
+                if jr == j {
+                    a.set_max_instructions(n2);
+                    limit_a = Some(n2);
+                }
+            }
+            if cfg.exec_area == Some(j) {
+                add_exec_area(&mut a);
+            }
+            if let Some((jp, at, len)) = patch {
+                if jp == j {
+                    apply_patch(&mut a, at, len);
+                }
             }
         }
         let ra = match a_early {
@@ -231,6 +320,8 @@ impl C11 {
         let mut limit_b = cfg.limit;
         let mut lowered_below_count = false;
         let mut relimit_done = false;
+        let mut exec_done = false;
+        let mut patch_done = false;
         loop {
             if steps > 700 {
                 return fail(col, "no-termination", "stepping did not end within 700 steps".into());
@@ -247,6 +338,26 @@ impl C11 {
                     }
                 }
             }
+            if cfg.exec_area == Some(steps) && !exec_done {
+                exec_done = true;
+                let s0 = snapshot(&b);
+                if s0.executed == steps && !s0.finished {
+                    add_exec_area(&mut b);
+                    col.distinct_key(&format!("exec-area|{}", steps == 0));
+                }
+            }
+            if let Some((jp, at, len)) = patch {
+                if jp == steps && !patch_done {
+                    patch_done = true;
+                    let s0 = snapshot(&b);
+                    if s0.executed == steps && !s0.finished && apply_patch(&mut b, at, len) {
+                        let off = (at - proggen::CODE_AT) as usize;
+                        for x in cur_code[off..off + len].iter_mut() {
+                            *x = 0x90;
+                        }
+                    }
+                }
+            }
             // host-side operations that must be invisible (twin A never sees them)
             if steps % 7 == 3 {
                 let mut prng = Rng::derive(k, steps, 0x9e77);
@@ -256,7 +367,7 @@ impl C11 {
             }
             let before = snapshot(&b);
             let rip = before.rip;
-            let ins = decode_at(&prog.code, proggen::CODE_AT, rip);
+            let ins = decode_at(&cur_code, proggen::CODE_AT, rip);
             let stopped_before = STOPPED.with(|c| c.get());
             let r = call(|| block_on(b.step()));
             steps += 1;
